@@ -557,7 +557,8 @@ func (e *c19Explorer) planName() string {
 }
 
 func (e *c19Explorer) explore(prefix []int) {
-	if e.execs >= e.maxExecs {
+	if e.execs >= e.maxExecs || (e.execs%64 == 63 && e.c.Expired()) {
+		// execution cap or the unit's time budget: lower bounds were completed, this one is reported as capped
 		e.capped = true
 		return
 	}
